@@ -71,7 +71,7 @@ CHECKS = {
          'shape is no verdict; each step reads '
          'source+offset through the bus and writes that byte to 0xfe00+offset; offset <= 0x9f inside the loop by the '
          'paired-counter lemma (offset + remaining invariant, remaining0 = min(0xa0-offset0, clocks/4), saved offset <= '
-         '0x9f by field invariant), so only OAM is written; retire exactly at 0xa0, otherwise saved with progress; DMA '
+         '0x9f by field invariant), so only OAM is written, and every path of a bus write to 0xfe00-0xfe9f performs the store; retire exactly at 0xa0, otherwise saved with progress; DMA '
          'before device tick; no assert in the DMA part can fail; the device tick IO::run_clock_cycles is called only from '
          'MemoryAreas::run_clock_cycles, in both configurations, so no step advances time without advancing the transfer.',
     note=TB + 'Clock counts multiples of 4 (C09.6); 0xfe00-0xfe9f is OAM (C10). Equality with a reference for sources '
@@ -93,8 +93,9 @@ CHECKS = {
     text='Decides: header layout and read_header protocol (on the paths of read_header: seek to Start(0x100), read exactly '
          'size_of::<Header>() bytes, Ok only when both succeeded and the position is 0x100); the mapping failure value is tested '
          'before the region is used; the checksum is x = x - byte - 1 over exactly 0x34..=0x4c compared '
-         'with the byte at 0x4d; Core::from_rom_file is reached only when valid_checksum is true and after the file length '
-         'was compared with the declared ROM size; size tables equal the cartridge tables for all 256 codes; unsupported '
+         'with the byte at 0x4d; Core::from_rom_file is reached only when valid_checksum is true and every accepting path '
+         'implies file length >= declared ROM size (proved bit-precisely with the size table evaluated on the path, however '
+         'the comparison is written); size tables equal the cartridge tables for all 256 codes; unsupported '
          'types diverge at load; no unchecked reinterpretation of header bytes.',
     note=TB + 'std File/Read/Seek/metadata behave per contract.',
     ref='DESIGN.md#c19'),
@@ -117,7 +118,7 @@ CHECKS = {
          'of the key used by BTreeMap::get (lookup) and BTreeMap::insert (translation) depends - by data or control '
          'dependence within the same run_code_block activation - on the bank the controller maps now; lookup and insert '
          'use the same injective key; translation reads the same bytes the interpreter fetches; only ROM is cached and '
-         'only under the can_dynarec guard (accepted set is a subset of 0..0x7fff, decided bit-precisely); a block does not extend past the region its key belongs to. The "any '
+         'only under the can_dynarec guard (accepted set is a subset of 0..0x7fff, decided bit-precisely); a block does not extend past the region its key belongs to; the address handed to CodeCache::call is, on every path, the result of the lookup or translation made in the same step (no remembered address in front of the tagged cache). The "any '
          'history" quantifier is discharged structurally: the key either depends on the live bank on every path or not.',
     note=TB + 'BTreeMap get/insert keyed by the passed u32 (std contract). Loops summarised by field-sensitive havoc.',
     ref='DESIGN.md#c03'),
@@ -171,7 +172,9 @@ CHECKS = {
          'reachable from memory_read_byte / memory_write_byte (devices and controller methods inlined) and the word '
          'helpers is an obligation, discharged for every (controller type, ROM bank count, RAM size) that '
          'create_cart_state / the size tables can produce - the configuration space is extracted from the code by '
-         'constant propagation over all 256 values of each header byte.',
+         'constant propagation over all 256 values of each header byte; and that a file is accepted only if every accepting '
+         'path of load_rom implies file length >= the size its header declares, so that no mapped page of the ROM is '
+         'unbacked (clause C19.5, evaluated here as well).',
     note=TB + 'Overflow asserts as in the dev/test profile. Null/misalignment checks inserted by rustc on references are '
          'skipped. create_buffer(n) has length n (structurally checked). std stdout write/flush return Result.',
     ref='DESIGN.md#c11'),
@@ -182,7 +185,8 @@ CHECKS = {
          '(ram_bank<<5)|low and RAM bank = ram_bank iff mode 1; bank-derived indices are inside the buffers at all '
          'four use sites for all 216 header configurations; bank 0 is fixed at 0x0000-0x3fff; the two header tables '
          'agree on controller families. Because each register is overwritten by a write, the per-write table decides '
-         'all write histories.',
+         'all write histories; every ROM-area write path of memory_write_byte calls the controller\'s write_rom (no size- or '
+         'state-dependent shortcut drops register writes).',
     note=TB + 'RAM-enable gating is outside the statement. In MBC1 mode 1 both conventions for the upper ROM bank bits '
          'are accepted.',
     ref='DESIGN.md#c12'),
@@ -247,7 +251,7 @@ CHECKS = {
     text='Decides, for both build configurations, that the only code reachable from the step functions that can '
          'write standard output is SerialComms::set_control (or a private helper of it), that it writes exactly the data '
          'latch iff bit 7 of the control value is set and flushes, that set_data is silent, that I/O offsets 1/2 route there '
-         'from memory_write_byte only, and (C18.5) that for every encoding translated code makes the same ordered bus accesses '
+         'from memory_write_byte only, the data latch SB is written by new and set_data only (a transfer leaves it as it is), and (C18.5) that for every encoding translated code makes the same ordered bus accesses '
          'as the interpreter, so SB/SC writes arrive in program order in both execution modes. Holds for all programs because it '
          'ranges over call-graph paths and abstract values, not sampled runs.',
     note=TB + 'std stdout write+flush assumed synchronous; stderr unrestricted.' + VL,
@@ -263,7 +267,8 @@ CHECKS['C15'] = dict(
          'through data-dependent loops and is out of reach of a sound static argument here.  What IS decided are necessary '
          'conditions - the building blocks every pixel passes through, each for all inputs: the plane interleave; row fetch '
          'and horizontal flip; LCDC decode and unsigned / signed tile addressing; BGP / OBP decode; per OAM entry the on-line '
-         'test, vertical flip, the 8x16 tile-number rule, attribute bits, OAM order and the ten-object limit; the object '
+         'test, vertical flip, the 8x16 tile-number rule, attribute bits, OAM order, the ten-object limit and that all 40 '
+         'entries are examined; the object '
          'line cache cell format and its write guard; per pixel of the mode-3 loop the BG/OBJ mixing rule, the palette cell '
          'used, the position LY*160+x and the advance of the caches; the tile fetch (map cell and tile row for background and '
          'window, tile x advancing modulo 32); the pixel phase at the start of a 4-dot group ((d + SCX) mod 8, or (d + 7 - WX) '
